@@ -248,6 +248,22 @@ def gen_multi(seed_i, mode, tier):
         scn["straddle_race"] = True
         straddle_race = True
         n = len(acts)
+    if mode == "line" and not straddle_race and not scn.get("codec_twins") and not scn.get("de43_pair") and kn.random() < 0.12:
+        # two or three readers of multi-block 1014 files, pre-empted every few source lines (the unblocker's
+        # refill loop is where instances could meet)
+        sub = Streams(sub_seed(seed_i, "readers"))
+        wl2 = sub["workload"]
+        acts = []
+        for _ in range(kn.choice([2, 2, 3])):
+            recs = [{"pos": [wl2.randint(0, 999), wl2.choice([700, 1008, 1500, 2100, 3000, wl2.randint(1, 2500)])]}
+                    for _ in range(wl2.randint(2, 5))]
+            wsp = {"role": "writer", "cls": "VbsWriter", "blocked": True, "records": recs}
+            acts.append({"role": "reader", "cls": "VbsReader", "blocked": True, "encoding": None, "config": "packaged",
+                         "image_from": wsp})
+        scn["actors"] = acts
+        scn["reader_race"] = True
+        straddle_race = True           # same dense schedule choice below
+        n = len(acts)
     sc = st["schedule"]
     if mode == "op":
         # number of ops per actor is known from the specs (writers: items + close; readers: records + 1)
@@ -416,6 +432,8 @@ def run_task(task):
                 c["probe:run_with_a_reader_on_a_faulted_image"] += 1
             if scn.get("share_config"):
                 c["probe:run_with_instances_sharing_one_config_object"] += 1
+            if scn.get("reader_race"):
+                c["probe:run_with_blocked_readers_preempted_every_few_lines"] += 1
             if scn.get("straddle_race"):
                 c["probe:run_with_blocked_writers_splitting_writes_across_payload_edges"] += 1
             if scn.get("codec_twins"):
